@@ -273,18 +273,33 @@ def rule_everyrefresh(ctx):
 def rule_defer(ctx):
     f = ctx.func('mp', 'MemPool._accept_transactions')
     n = 0
-    trs = [s for s in f.own_nodes() if isinstance(s, ast.Try)]
+    # per path through one iteration of the transaction loop: the path on which the parent look-up raised KeyError records
+    # the transaction as deferred, accepts nothing of it, and goes on with the next one (in the handler itself, or after a
+    # helper reported the miss - the normaliser inlines such a helper)
+    from .. import paths as P
+    loops = [s for s in f.node.body if isinstance(s, ast.For) and norm(s.iter) == f'{f.params[1]}.items()']
+    rr = [r for r in f.own_nodes() if isinstance(r, ast.Return) and isinstance(r.value, ast.Tuple) and isinstance(r.value.elts[0], ast.Name)]
+    dfv = rr[0].value.elts[0].id if len(rr) == 1 else None
     ok = False
-    if len(trs) == 1:
-        t = trs[0]
-        names = [norm(x) for h in t.handlers for x in ((h.type.elts if isinstance(h.type, ast.Tuple) else [h.type]) if h.type else ['*'])]
-        h = t.handlers[0]
-        rr = [r for r in f.own_nodes() if isinstance(r, ast.Return) and isinstance(r.value, ast.Tuple) and isinstance(r.value.elts[0], ast.Name)]
-        dfv = rr[0].value.elts[0].id if len(rr) == 1 else None
-        defer = [s for s in h.body if isinstance(s, ast.Assign) and isinstance(s.targets[0], ast.Subscript) and dfv and norm(s.targets[0].value) == dfv]
-        cont = any(isinstance(s, ast.Continue) for s in h.body)
-        parent = any('out_pairs' in norm(s) for s in walk_own(t) if isinstance(s, ast.Subscript))
-        ok = 'KeyError' in names and len(defer) == 1 and cont and parent
+    if len(loops) == 1 and dfv:
+        lp = loops[0]
+        missed = 0
+        ok = True
+        parent = any('out_pairs' in norm(s) for s in walk_own(lp) if isinstance(s, ast.Subscript))
+        for pth in P.paths(lp.body):
+            hs = [nd for _t, _pol, nd in pth.conds if isinstance(nd, ast.ExceptHandler)]
+            if not hs:
+                continue
+            names = [norm(x) for h in hs for x in ((h.type.elts if isinstance(h.type, ast.Tuple) else [h.type]) if h.type else ['*'])]
+            if 'KeyError' not in names:
+                continue
+            missed += 1
+            simple = [st_ for st_, _e in pth.events if isinstance(st_, (ast.Assign, ast.AugAssign, ast.Expr, ast.Delete))]
+            defer = [s_ for s_ in simple if isinstance(s_, ast.Assign) and isinstance(s_.targets[0], ast.Subscript) and norm(s_.targets[0].value) == dfv]
+            accepted = [s_ for s_ in simple if isinstance(s_, ast.Assign) and isinstance(s_.targets[0], ast.Subscript)
+                        and ctx.res.canon(s_.targets[0].value, f) == 'self.txs']
+            ok = ok and pth.exit == 'continue' and len(defer) == 1 and not accepted
+        ok = ok and missed >= 1 and parent
     ctx.check(ok, 'C09.DEFER', ctx.key(f, None, 'missing parent defers'),
               'a transaction whose parent is not (yet) known is deferred, untouched, and the loop goes on',
               'a missing parent (KeyError) does not defer the transaction and continue', loc=ctx.loc(f, f.node))
